@@ -49,14 +49,20 @@ theorem kernel_facts {k : Kernel} (hk : k ∈ kernels) :
   obtain ⟨⟨⟨⟨⟨h1, h2⟩, h3⟩, h4⟩, h5⟩, h6⟩ := h
   exact ⟨h1, h2, h3, h4, h5, h6⟩
 
+/-- the same cells, whatever the order and however often each is read -/
+def sameCells (l r : List (Int × Int)) : Prop := l ⊆ r ∧ r ⊆ l
+
+instance (l r : List (Int × Int)) : Decidable (sameCells l r) := by unfold sameCells; infer_instance
+
 /-- exactly which cells are read: Horn's 8 neighbours (not the centre) for slope and aspect, the
-    4-neighbour cross plus the centre for curvature, the 4-neighbour cross for hillshade -/
+    4-neighbour cross plus the centre for curvature, the 4-neighbour cross for hillshade
+    (as *sets*: reading a cell once into a temporary or twice in place is the same kernel) -/
 theorem read_sets :
-    (slope_cpu.body.reads.map (·.2)) = [(1, -1), (1, 0), (1, 1), (0, -1), (0, 1), (-1, -1), (-1, 0), (-1, 1)] ∧
-    (aspect_cpu.body.reads.map (·.2)) = [(-1, -1), (-1, 0), (-1, 1), (0, -1), (0, 1), (1, -1), (1, 0), (1, 1)] ∧
-    (curvature_cpu.body.reads.map (·.2)) = [(1, 0), (-1, 0), (0, 0), (0, 1), (0, -1), (0, 0)] ∧
-    (hillshade_cpu.body.reads.map (·.2)) = [(1, 0), (-1, 0), (0, 1), (0, -1)] := by
-  refine ⟨?_, ?_, ?_, ?_⟩ <;> rfl
+    sameCells (slope_cpu.body.reads.map (·.2)) [(1, -1), (1, 0), (1, 1), (0, -1), (0, 1), (-1, -1), (-1, 0), (-1, 1)] ∧
+    sameCells (aspect_cpu.body.reads.map (·.2)) [(-1, -1), (-1, 0), (-1, 1), (0, -1), (0, 1), (1, -1), (1, 0), (1, 1)] ∧
+    sameCells (curvature_cpu.body.reads.map (·.2)) [(1, 0), (-1, 0), (0, 0), (0, 1), (0, -1)] ∧
+    sameCells (hillshade_cpu.body.reads.map (·.2)) [(1, 0), (-1, 0), (0, 1), (0, -1)] := by
+  refine ⟨?_, ?_, ?_, ?_⟩ <;> decide
 
 /-- **local**: an output cell is a function of the 3×3 window around it -/
 theorem cell_local {k : Kernel} (hk : k ∈ kernels) (env : String → F) (vec : String → List F)
